@@ -69,13 +69,14 @@ def simulate_with_lost_probe(moduli, style, openssh, lost):
 
 def make_cases_lostprobe():
     """One connection of the group-exchange phase fails (any way a connection can fail); the probing must go on."""
-    fl = [['connect', 'close'], ['connect', 'stall'], ['connect', 'refuse'], ['connect', 'timeout'], ['banner', 'close'], ['kexinit', 'close'], ['kexinit', 'stall'], ['gex_group', 'close'], ['gex_group', 'stall'], ['gex_group', 'reset']]
+    fl = [['connect', 'close'], ['connect', 'stall'], ['connect', 'refuse'], ['connect', 'timeout'], ['banner', 'close'], ['kexinit', 'close'], ['kexinit', 'stall'], ['gex_group', 'close'], ['gex_group', 'stall'], ['gex_group', 'reset'],
+          ['gex_group', ['reframe_trunc', 69]], ['gex_group', ['reframe_trunc', 133]], ['gex_group', ['set_u32', 1, 4096]], ['gex_group', ['disconnect', 12]]]
     for moduli in ([768, 2048], [1024, 3072], [1536, 4096], [768, 1024, 4096], [2048, 3072], [512, 8192], [1024], [3072]):
         for style in ('prefup', 'roundup', 'strict', 'openssh'):
             for what, f in fl:
                 for idx in range(2, 10):
                     for banner in ('openssh', 'dropbear'):
-                        yield {'moduli': moduli, 'style': style, 'algs': 'sha256', 'banner': banner, 'family': 'lostprobe', 'fault': [what, idx, f], 'renderings': ['json']}
+                        yield {'moduli': moduli, 'style': style, 'algs': 'sha256', 'banner': banner, 'family': 'lostprobe', 'fault': [what, idx, f], 'renderings': ['json'], 'lenient': idx % 2 == 1}
 
 
 def make_cases_stated():
@@ -131,6 +132,9 @@ FAULTS = [
     ['gex_group', ['reframe_trunc', 3]], ['gex_group', ['payload', '\x1f' + '\x00\x00\x00\x00' * 2]],
     ['gex_reply', ['type', 99]], ['gex_reply', ['payload', '\x21\xff\xff\xff\xff']],
     ['kexinit', 'close'], ['banner', 'close'], ['connect', 'close'],
+    # a group message that ends inside its modulus / announces more modulus bytes than it carries / has no generator
+    ['gex_group', ['reframe_trunc', 5]], ['gex_group', ['reframe_trunc', 6]], ['gex_group', ['reframe_trunc', 37]], ['gex_group', ['reframe_trunc', 69]], ['gex_group', ['reframe_trunc', 133]], ['gex_group', ['reframe_trunc', 261]],
+    ['gex_group', ['set_u32', 1, 4096]], ['gex_group', ['set_u32', 1, 0x7fffffff]], ['gex_group', ['set_u32', 1, 1]], ['gex_group', ['disconnect', 12]], ['kexinit', ['disconnect', 2]],
 ]
 
 
@@ -150,9 +154,9 @@ def make_cases_faults():
     for moduli in ([1024], [2048], [1024, 4096], [2048, 3072], [4096]):
         for style in ('strict', 'openssh'):
             for what, f in FAULTS:
-                for idx in (1, 2, 3, '*'):
+                for idx in (1, 2, 3, '*', '2+', '4+'):
                     for banner in ('openssh', 'dropbear'):
-                        yield {'moduli': moduli, 'style': style, 'algs': 'sha256', 'banner': banner, 'family': 'fault', 'fault': [what, idx, f]}
+                        yield {'moduli': moduli, 'style': style, 'algs': 'sha256', 'banner': banner, 'family': 'fault', 'fault': [what, idx, f], 'lenient': banner == 'dropbear'}
 
 
 def _sizes_and_notes_json(doc):
@@ -187,6 +191,61 @@ def _check_notes(alg, size, notes, fallback_size, fails, tag):
                 fails.append(['table-rating-lost-after-measurement', '%s %s: size=%r, the table %s note %r is gone (shown: %r)' % (tag, alg, size, sev, lost, notes.get(sev, []))])
 
 
+def eval_seq(case):
+    """Several group-exchange servers in one invocation: each one's size and size notes follow from its own groups."""
+    import os
+    net = fakenet.FakeNet()
+    members = case['members']
+    for i, m in enumerate(members):
+        algs = ALGSETS[m['algs']]
+        kex = (algs + ['curve25519-sha256']) if m.get('gex_first') else (['curve25519-sha256'] + algs)
+        net.add('s%d' % i, 22, fakenet.Server({'banner': BANNERS[m['banner']], 'kex': kex, 'key': m.get('key', ['ssh-ed25519']), 'hostkeys': {'ssh-ed25519': {'t': 'ed25519'}, 'ssh-rsa': {'t': 'rsa', 'bits': 3072}}, 'moduli': m['moduli'], 'gex_style': m['style'], 'faults': m.get('faults', [])}))
+    tf = drive.tmpfile(''.join('s%d\n' % i for i in range(len(members))))
+    try:
+        r = drive.run_cli(['-n', '-j', '--skip-rate-test', '--threads', str(case.get('threads', 1)), '-T', tf], net)
+    finally:
+        os.unlink(tf)
+    fails = []
+    if r.exc or r.hang or r.code not in (0, 2, 3):
+        return mkres(case, nt=True, classes=['seq', 'crashed'], fails=[[drive.crash_sig(r) if r.exc else 'no-report', r.brief()]])
+    docs = {d['target'].split(':')[0]: d for d in json.loads(r.out) if isinstance(d, dict) and 'target' in d}
+    for i, m in enumerate(members):
+        got = _sizes_and_notes_json(docs.get('s%d' % i, {}))
+        want, fb = ref_expected(m['moduli'], m['style'], m['banner'].startswith('openssh'))
+        if m.get('faults'):
+            want = {None}          # this member refuses every group-exchange request: no size
+        for alg in ALGSETS[m['algs']]:
+            if alg not in got:
+                fails.append(['gex-alg-missing-from-report', 'server %d of %d: %s' % (i + 1, len(members), alg)])
+                continue
+            size, notes = got[alg]
+            tag = 'server %d of %r' % (i + 1, [(x['moduli'], x['style'], x['banner']) for x in members])
+            if size not in want:
+                fails.append(['size-depends-on-servers-audited-in-the-same-run', '%s %s: reported %r, reference %r' % (tag, alg, size, sorted(want, key=str))])
+            else:
+                f2 = []
+                _check_notes(alg, size, notes, fb if not m.get('faults') else None, f2, tag)
+                fails += [[sig + '-in-multi-target-run', d] for sig, d in f2]
+    return mkres(case, nt=True, classes=['seq', 'n:%d' % len(members), 'threads:%d' % case.get('threads', 1)], fails=fails[:6])
+
+
+def make_cases_seq():
+    pool = [([2048], 'roundup', 'dropbear'), ([4096], 'roundup', 'dropbear'), ([3072], 'strict', 'openssh'), ([1024], 'roundup', 'dropbear'), ([2048, 4096], 'strict', 'openssh'), ([], 'openssh', 'openssh'), ([8192], 'roundup', 'openssh'),
+            ([1536], 'strict', 'dropbear'), ([6144, 8192], 'strict', 'dropbear'), ([], 'strict', 'dropbear')]
+    n = 0
+    for a in pool:
+        for b in pool:
+            if a == b:
+                continue
+            for c in (None, pool[(n * 7) % len(pool)]):
+                n += 1
+                ms = [{'moduli': x[0], 'style': x[1], 'banner': x[2], 'algs': ('both', 'sha256', 'sha1')[(n + j) % 3] if j else 'both', 'gex_first': (n + j) % 4 == 0, 'key': ['ssh-rsa', 'ssh-ed25519'] if (n + j) % 4 == 0 else ['ssh-ed25519']} for j, x in enumerate([a, b] + ([c] if c else []))]
+                if n % 5 == 0:
+                    # ... one of them refuses every group-exchange request after its host-key probes
+                    ms[-1]['faults'] = [['gex_group', '*', ['disconnect', 12]]]
+                yield {'family': 'seq', 'members': ms, 'threads': 1 + n % 2}
+
+
 def eval_slow(case):
     """Engine B: a server that answers every message late but well within the timeout.  All waits together exceed
     the timeout several times over; each connection is nevertheless entitled to its own."""
@@ -211,6 +270,8 @@ def eval_slow(case):
 def eval_case(case):
     if case.get('family') == 'slow':
         return eval_slow(case)
+    if case.get('family') == 'seq':
+        return eval_seq(case)
     algs = ALGSETS[case['algs']]
     spec = {'banner': BANNERS[case['banner']], 'kex': ['curve25519-sha256'] + algs, 'hostkeys': {'ssh-ed25519': {'t': 'ed25519'}}, 'moduli': case['moduli'], 'gex_style': case['style']}
     if case.get('moduli256') is not None:
@@ -219,6 +280,8 @@ def eval_case(case):
         spec['faults'] = [case['fault']]
     if case.get('chatter'):
         spec['chatter'] = case['chatter']
+    if case.get('lenient'):
+        spec['check_e'] = False        # a server that goes on with whatever public value the client sends
     openssh = case['banner'].startswith('openssh')
     fails = []
     want, fb = ref_expected(case['moduli'], case['style'], openssh)
@@ -332,7 +395,7 @@ def run(ctx):
     faults = list(make_cases_faults())
     if ctx.quick:
         ctx.rng.shuffle(faults)
-        faults = faults[:800]
+        faults = faults[:1600]
     ctx.map(faults)
     slow = [{'family': 'slow', 'moduli': [512, 1024, 2048], 'style': 'strict', 'algs': 'sha256', 'banner': 'dropbear', 'delay': 0.5, 'timeout': 3},
             {'family': 'slow', 'moduli': [768, 3072], 'style': 'prefup', 'algs': 'sha256', 'banner': 'openssh', 'delay': 0.4, 'timeout': 3}]
@@ -343,12 +406,14 @@ def run(ctx):
     lp = list(make_cases_lostprobe())
     if ctx.quick:
         ctx.rng.shuffle(lp)
-        lp = lp[:1500]
+        lp = lp[:2000]
     ctx.map(lp)
     pa = list(make_cases_peralg())
     ctx.map(pa)
     ch = list(make_cases_chatty())
     ctx.map(ch)
+    sq = list(make_cases_seq())
+    ctx.map(sq)
     ext = list(make_cases_extension())
     if ctx.quick:
         head, tail = ext[:4 * len(NEAR) + 72], ext[4 * len(NEAR) + 72:]
